@@ -48,6 +48,8 @@ def cases(ctx):
             r = rng.random()
             if r < 0.06:
                 prog = gc.gen_return_twice(rng)
+            elif r < 0.08:
+                prog = gc.gen_big_accumulate(rng)       # values far beyond 32 (and 53) bits, reached by arithmetic
             elif r < 0.38:
                 prog = gc.gen_program(rng, units[app], max_len=rng.choice([12, 20, 30]), first=app not in seen)
             else:
